@@ -426,8 +426,12 @@ DoPeerWsPack == \E k \in 1..(MaxFrames * 12) : PeerWsPack(k)
 DoPeerWsOther == \E kind \in {"text", "ping", "empty"} : PeerWsOther(kind)
 DoFillStream == \E k \in 1..(Cap + 1) : FillStream(k)
 DoPongWrite  == \E k \in 1..4 : PongWrite(k)
-DoWriteCall  == \E n \in WLens : WriteCall(n)
-DoWriteAccept == \E k \in 1..12 : WriteAccept(k)
+\* Framed::handshake(isi) is the write of one IS_ISI frame (44 bytes) and nothing else: whatever the Isi says (its version field
+\* included), the connection's configuration - cfg.verify, the version gate - stays what it was
+IsiLen == 44
+DoHandshake  == IsiLen \in WLens /\ WriteCall(IsiLen)
+DoWriteCall  == \E n \in WLens \ {IsiLen} : WriteCall(n)
+DoWriteAccept == \E k \in 1..IsiLen : WriteAccept(k)
 
 Next ==
   \/ DoPeerSend \/ DoPeerTruncated \/ DoPeerDgram1 \/ DoPeerDgram2 \/ DoPeerWsPack \/ DoPeerWsOther \/ PeerClose
@@ -435,7 +439,7 @@ Next ==
   \/ DoFillStream \/ FillUdpBuffered \/ FillUdpDirect \/ FillWs
   \/ FillEof \/ FillErr \/ FillPending \/ FillTimeout
   \/ DoPongWrite \/ PongPending \/ PongFinish \/ PongFail \/ Cancel
-  \/ DoWriteCall \/ DoWriteAccept \/ WritePending \/ WsBlock \/ WsUnblock
+  \/ DoWriteCall \/ DoHandshake \/ DoWriteAccept \/ WritePending \/ WsBlock \/ WsUnblock
 
 Spec == Init /\ [][Next]_vars
 
@@ -534,7 +538,7 @@ ErrNoLoss == [][(Len(results') > Len(results) /\ results'[Len(results')].t \in {
 
 TypeOK ==
   /\ pc \in {"idle", "loop", "fill", "pong", "write", "closed", "dead"}
-  /\ pongleft \in 0..4 /\ wleft \in 0..12
+  /\ pongleft \in 0..4 /\ wleft \in 0..IsiLen
   /\ (pc = "pong" => pending # 0)
   /\ (wafter => pc = "pong")
   /\ roff >= 0
